@@ -45,6 +45,14 @@ def doCollection : Nat := maskWhere fns (fun f => f.tag == .doCollection)
 
 def collectorClosure : Nat := collectorClosureCert
 
+/-- Private helpers of the driver (`PhaseGuard::step_*`-like functions a refactoring may split the
+driver loop into): not callable by clients, and — checked on the graph by `entersOnlyVia` in
+`Props/C03s.driver_parts_private` — called by nothing but the driver and one another. -/
+def driverParts : Nat := maskWhere fns (fun f => f.tag == .driverPart)
+
+/-- The driver with its private helpers. -/
+def driver : Nat := doCollection ||| driverParts
+
 /-- `&mut self` on `Arena`, or consumes a `MarkedArena`. -/
 def exclusiveEntry (f : FnInfo) : Bool :=
   (f.selfKind == .arena && f.recv == .refMut) || (f.selfKind == .markedArena && f.recv == .value)
